@@ -15,7 +15,7 @@ RULE = (
     "transitive_memento_fn_dependencies == memento nodes reachable from f (through any nodes) minus f; direct_... == memento nodes named in f's own body minus f; df() == pairs (memento m -> memento m' != m) "
     "with a path from m to m' through plain nodes only, for m = f or reachable from f. Enforcement: calling f with arguments 1 and 2 (directly, or - for half of the cases - the second one through two chained modifiers partial().force_local()), the outcome is UndeclaredDependencyError iff a simulation of the execution meets a "
     "call from an automatically-versioned memento frame to a memento function that is neither in that frame's closure nor the frame itself; otherwise the value equals the un-memoized run; the roots are then called with every hidden callee handed over in the context arguments (those calls are allowed) and once more without (refused again). "
-    "For random programs one plain helper is additionally re-defined in the running process with a retargeted call edge (no memento registration) and the closures are asked again and compared with the model of the edited program. "
+    "A small enumerated family (memento -> chain of 1-3 plain helpers -> memento, every helper of the chain re-defined in the running process to call another memento function or to skip ahead) and, for random programs, one plain helper is additionally re-defined in the running process with a retargeted call edge (no memento registration) and the closures are asked again and compared with the model of the edited program. "
     "Non-trivial = graph with a cycle, a memento node reachable only through a plain node, or a hidden edge; distinct by graph."
 )
 ASSUMPTIONS = [
@@ -63,6 +63,31 @@ def exhaustive_cases(max_n):
                     hn = srcs[mask % len(srcs)]
                     yield {"program": graph_program(n, kinds, es, hidden_node=hn), "src": "exhaustive-hidden", "n": n, "chained": bool(mask % 2)}
                     yield {"program": graph_program(n, kinds, es, attrchain_node=srcs[(mask + 1) % len(srcs)]), "src": "exhaustive-attrchain", "n": n}
+
+
+def evolution_cases():
+    """
+    f0 (memento) -> h1 -> ... -> hn (plain helpers) -> g (memento); g2 is another memento function nobody refers to.
+    Helper hk is re-defined in the running process so that it calls g2 (or, if it is not the last one, skips to g)
+    - for every chain length n <= 3, every k, and with the first edge of f0 being a bare call or an attribute-chain call.
+    """
+    call = lambda f, form=None: dict({"e": "call", "f": f}, **({"form": form} if form else {}))  # noqa: E731
+    fn = lambda name, memento, body: {"k": "fn", "mod": "a", "name": name, "memento": memento, "version": None, "cluster": None,  # noqa: E731
+                                      "pdef": None, "kwdef": None, "base": {"e": "lit", "v": 1}, "body": body}
+    for n in (1, 2, 3):
+        for k in range(1, n + 1):
+            for to in ("g2", "g"):
+                if to == "g" and k == n:
+                    continue
+                for form in (None, "attrchain"):
+                    helpers = ["h%d" % i for i in range(1, n + 1)]
+                    defs = [fn("g", True, {"e": "x"}), fn("g2", True, {"e": "x"})]
+                    for i, h in enumerate(helpers):
+                        nxt = helpers[i + 1] if i + 1 < n else "g"
+                        defs.append(fn(h, False, {"e": "add", "a": {"e": "x"}, "b": call(nxt)}))
+                    defs.append(fn("f0", True, {"e": "add", "a": {"e": "x"}, "b": call("h1", form)}))
+                    yield {"program": {"pkg": "vpk", "modules": ["a"], "defs": defs}, "src": "evolution-chain",
+                           "evolve": {"helper": "h%d" % k, "to": to}, "handover": False}
 
 
 def _qn(prog, d):
@@ -200,7 +225,18 @@ def _evolution(case):
     if deep and ev.get("which", 0) % 4 != 3:
         plain = deep
     target = plain[ev.get("which", 0) % len(plain)]
-    p2, info = progs.apply_edit(prog, dict(ev, kind="retarget", target=target), "v")
+    if ev.get("helper"):
+        # directed form: re-define exactly this helper so that it calls `to` instead
+        target = ev["helper"]
+        p2 = info = None
+        for idx in range(len(progs.callables(prog))):
+            p2, info = progs.apply_edit(prog, {"kind": "retarget", "site": 0, "idx": idx, "target": target}, "v")
+            if info["applied"] and info.get("new_ref") == ev["to"]:
+                break
+        else:
+            return None, [], {}
+    else:
+        p2, info = progs.apply_edit(prog, dict(ev, kind="retarget", target=target), "v")
     if not info["applied"] or info.get("bumped"):
         return None, [], {}
     dd = progs.find(p2, target)
@@ -310,7 +346,7 @@ def run_shard(ctx):
     thorough = ctx.tier == "thorough"
     ex = lambda c: execute(c, ctx.scratch)  # noqa: E731
     dl = (lambda frac: max((ctx.deadline - time.time()) * frac, 5) if ctx.deadline else None)
-    complete = core.enum_search(exhaustive_cases(3 if thorough else 2), ex, stats, findings=ctx.findings, shard=ctx.shard,
+    complete = core.enum_search(itertools.chain(evolution_cases(), exhaustive_cases(3 if thorough else 2)), ex, stats, findings=ctx.findings, shard=ctx.shard,
                                 nshards=ctx.nshards, deadline_s=dl(0.7))
     stats.extra["exhaustive_graphs"] = stats.evaluations
     stats.extra["exhaustive_complete"] = bool(complete)
